@@ -8,6 +8,7 @@ package main
 import (
 	"cmp"
 	"fmt"
+	"math"
 	"strconv"
 	"strings"
 )
@@ -83,6 +84,12 @@ func signMagnitude(ka, kb int) int {
 	}
 	if d < 0 { // overflow of the subtraction
 		d = 1
+	}
+	if d%11 == 7 { // now and then the extreme values a saturating or subtracting comparator can return
+		if c < 0 {
+			return math.MinInt
+		}
+		return math.MaxInt
 	}
 	return c * (1 + d%3)
 }
